@@ -17,7 +17,7 @@ if os.path.exists(p):
         if len(f) >= 5:
             res.setdefault(f[0], []).append((f[1].split("=")[1], int(f[2].split("=")[1]), int(f[4].split("=")[1])))
 rows = []
-for d in sorted(glob.glob(os.path.join(ROOT, "seeded", "C??-?"))):
+for d in sorted(glob.glob(os.path.join(ROOT, "seeded", "C??-*")), key=lambda x: (os.path.basename(x).split("-")[0], int(os.path.basename(x).split("-")[1]))):
     mp = os.path.join(d, "meta.json")
     if not os.path.exists(mp):
         continue
@@ -28,7 +28,7 @@ for d in sorted(glob.glob(os.path.join(ROOT, "seeded", "C??-?"))):
         if chk in seen: continue
         seen.add(chk)
         finals.append(f"{chk}: " + ("input" if rc == 1 and noinp == 0 else ("no-failing-input-found" if rc == 1 else "missed")))
-    n = int(m["id"].split("-")[1]); rnd = "4" if n >= 7 else ("3" if n >= 5 else ("2" if n >= 3 else "1"))
+    n = int(m["id"].split("-")[1]); rnd = "5" if n >= 9 else "4" if n >= 7 else ("3" if n >= 5 else ("2" if n >= 3 else "1"))
     rows.append(f"| {m['id']} | {rnd} | {', '.join(os.path.basename(f) for f in m['files_touched'])} | {m['title'].split('—', 1)[-1].strip()} | {m['checks_run']['first_round']} | {'; '.join(finals)} |")
 stable = "| id | round | file | change | when first run | final run |\n|---|---|---|---|---|---|\n" + "\n".join(rows)
 STATUS = {
